@@ -19,5 +19,9 @@ BodiesCore == {[kind |-> "honest", of |-> "a", sq |-> "S"], [kind |-> "honest", 
                [kind |-> "honest", of |-> "a", sq |-> "T"], [kind |-> "garbled", of |-> "-", sq |-> "-"]}
 BodiesQuick == {[kind |-> "honest", of |-> "a", sq |-> "S"], [kind |-> "honest", of |-> "b", sq |-> "S"],
                 [kind |-> "garbled", of |-> "-", sq |-> "-"]}
+\* simulation only: do not spend the message budget before anybody has registered, nor on pure junk
+SimFocus == /\ (nmsg > 0 => \E f \in Fetchers : fs[f].next > 1)
+            /\ \A t \in Threads : hs[t].pc = "envelope" => (hs[t].m.env = "ok" /\ hs[t].m.wf = "ok") \/ nmsg = MaxMsgs
+            /\ \A f \in Fetchers : fs[f].pc = "cancelled" => (f = "f1" /\ nmsg >= 2)
 BodiesTiny == {[kind |-> "honest", of |-> "a", sq |-> "S"], [kind |-> "garbled", of |-> "-", sq |-> "-"]}
 =============================================================================
